@@ -83,7 +83,7 @@ def escape_obligations(ctx, rule, repo, entry, tolerant, allowed_families, what)
     return n
 
 
-def g_obligations(ctx, rule_prefix, repo, entries, rules=('G1', 'G2', 'G3', 'G4', 'G5', 'G6', 'G7', 'G9', 'G10')):
+def g_obligations(ctx, rule_prefix, repo, entries, rules=('G1', 'G2', 'G3', 'G4', 'G5', 'G6', 'G7', 'G9', 'G10', 'G11')):
     """REFUTED obligations for crash constructs in functions reachable from `entries`; one HOLDS
     obligation per rule summarising the scan."""
     prog = program(repo)
@@ -118,11 +118,13 @@ G_TEXT = {
     'G7': 'G7: a constant index into a node/argument list is dominated by a length or truthiness '
           'test of that list',
     'G9': 'G9: a position value is never tested by truthiness',
+    'G11': 'G11: standard-library calls that raise for part of their domain (unicodedata.name without '
+           'default) are given a default or are inside a handler for that exception',
     'G10': 'G10: a fixed module-level table is subscripted only with a literal member key, under a '
            'dominating membership test, or inside a handler for KeyError',
 }
 
 
-def declare_g(ctx, rules=('G1', 'G2', 'G3', 'G4', 'G5', 'G6', 'G7', 'G9', 'G10')):
+def declare_g(ctx, rules=('G1', 'G2', 'G3', 'G4', 'G5', 'G6', 'G7', 'G9', 'G10', 'G11')):
     for r in rules:
         ctx.rule(r, G_TEXT[r], 1)
